@@ -148,6 +148,34 @@ def runForward (me : Bytes) (ups : List Bytes) (down : Bytes) (ct cl : Bool) : F
    -- closeAll runs under a sync.Once (not modelled: the model has no second closer)
    if cl then some 1 else none⟩
 
+/-- One `Read` of a connection the forwarder copies from: the bytes it returned and the error it returned
+WITH them (`none` = nil, `some .eof` = io.EOF, `some .err` = any other error).  `net.Conn` and
+`FrameStream` report the end in a separate `(0, EOF)` call; `iotest.DataErrReader`, gzip readers and
+QUIC streams legally return it together with the last bytes. -/
+structure LRead where
+  data : Bytes
+  err : Option Tail
+deriving DecidableEq, Repr
+
+/-- `io.Copy(dst, src)` as a sequence of `Write` calls: the bytes of every read are written BEFORE the
+read's error is looked at (`if nr > 0 { dst.Write }` … `if er != nil { break }`); the copy stops at the
+first error; a script without one ends with the reader's `(0, EOF)`. -/
+def copyWrites : List LRead → List Bytes
+  | [] => []
+  | r :: rs => (if r.data.isEmpty then [] else [r.data]) ++ (if r.err.isSome then [] else copyWrites rs)
+
+/-- Everything the reader handed out up to and including the read that reported the end / the error. -/
+def readData : List LRead → Bytes
+  | [] => []
+  | r :: rs => r.data ++ (if r.err.isSome then [] else readData rs)
+
+/-- `runForward` with the local connection given as a script of reads (`upReads`) and the stream side
+(`RemoteConn`) optionally reporting its end-of-stream together with its last bytes (`re`): both copies
+are `io.Copy`s. -/
+def runForwardR (me : Bytes) (upReads : List LRead) (down : Bytes) (ct cl re : Bool) : FwObs :=
+  let o := runForward me (copyWrites upReads) down ct cl
+  { o with down := (copyWrites [⟨o.down, if re then some .eof else none⟩]).flatten }
+
 /-- **Forwarding on an observation**: everything the application sent before its half-close reached the
 peer, the peer's answer reached the application, both followed by end-of-stream; the traffic counters
 (if any) show exactly those byte counts and the local connection's closer (if any) ran exactly once. -/
